@@ -100,3 +100,118 @@ Example C15_nonvacuous :
   wf a /\ wf b /\ clt a b = false /\ negative_fields (csub b a) <> [] /\
   negative_fields (csub a b) = ["ram"%string] /\ cadd (cfree a b) b = a.
 Proof. vm_compute. repeat split; discriminate. Qed.
+
+(* ---------------- extension round: further laws, FreeCapacity, allocation histories ---------------- *)
+From Coq Require Import Permutation.
+
+Theorem C15_sub_add_cancel : forall a b, List.length a = List.length b -> cadd (csub a b) b = a.
+Proof. exact sub_add_cancel. Qed.
+Print Assumptions C15_sub_add_cancel.
+
+Theorem C15_sub_self_is_zero : forall a, csub a a = repeat 0 (List.length a).
+Proof. exact sub_self. Qed.
+Print Assumptions C15_sub_self_is_zero.
+
+Theorem C15_add_zero : forall a, cadd a (repeat 0 (List.length a)) = a.
+Proof. exact add_zero_r. Qed.
+Print Assumptions C15_add_zero.
+
+(* Capacities() is the all-zero value of the current field list *)
+Theorem C15_default_is_zero : czero = repeat 0 nfields.
+Proof. exact czero_repeat. Qed.
+Print Assumptions C15_default_is_zero.
+
+(* FreeCapacity(total=t, allocated=None): everything is free *)
+Theorem C15_free_of_nothing_is_total : forall t, wf t -> cfree_none t = t.
+Proof. exact free_none. Qed.
+Print Assumptions C15_free_of_nothing_is_total.
+
+(* FreeCapacity.<field> is total.<field> - allocated.<field>, for every field of the generated list *)
+Theorem C15_free_field_access : forall t a i f, wf t -> wf a -> nth_error cap_fields i = Some f ->
+  free_get f t a = Some (nth i t 0 - nth i a 0).
+Proof. exact free_get_is_difference. Qed.
+Print Assumptions C15_free_field_access.
+
+(* 'fits within': a < b is b > a; it is the field-wise order, hence reflexive (the documented reading),
+   antisymmetric and transitive *)
+Theorem C15_lt_gt_dual : forall a b, clt a b = cgt b a.
+Proof. exact lt_gt_dual. Qed.
+Print Assumptions C15_lt_gt_dual.
+
+Theorem C15_fits_fieldwise : forall a b, List.length a = List.length b ->
+  (clt a b = true <-> forall i, (i < List.length a)%nat -> nth i a 0 <= nth i b 0).
+Proof. exact fits_fieldwise. Qed.
+Print Assumptions C15_fits_fieldwise.
+
+Theorem C15_fits_refl : forall a, clt a a = true.
+Proof. exact fits_refl. Qed.
+Print Assumptions C15_fits_refl.
+
+Theorem C15_fits_antisym : forall a b, List.length a = List.length b -> clt a b = true -> clt b a = true -> a = b.
+Proof. exact fits_antisym. Qed.
+Print Assumptions C15_fits_antisym.
+
+Theorem C15_fits_trans : forall a b c, List.length a = List.length b -> List.length b = List.length c ->
+  clt a b = true -> clt b c = true -> clt a c = true.
+Proof. exact fits_trans. Qed.
+Print Assumptions C15_fits_trans.
+
+(* positive_fields: True exactly when every named field exists and is > 0; False only with a named field <= 0;
+   KeyError only for a name that is not a field *)
+Theorem C15_positive_fields_true : forall c fs,
+  positive_fields c fs = Some true <-> Forall (fun f => exists v, getf f c = Some v /\ v > 0) fs.
+Proof. exact positive_fields_true. Qed.
+Print Assumptions C15_positive_fields_true.
+
+Theorem C15_positive_fields_false : forall c fs,
+  positive_fields c fs = Some false -> exists f v, In f fs /\ getf f c = Some v /\ v <= 0.
+Proof. exact positive_fields_false. Qed.
+Print Assumptions C15_positive_fields_false.
+
+Theorem C15_positive_fields_keyerror : forall c fs,
+  positive_fields c fs = None -> exists f, In f fs /\ getf f c = None.
+Proof. exact positive_fields_keyerror. Qed.
+Print Assumptions C15_positive_fields_keyerror.
+
+(* allocation histories of ANY length: the accumulated allocation is the field-wise sum, does not depend on
+   the order of the allocations, releasing the last one restores the previous state, and free + allocated =
+   total after every history *)
+Theorem C15_history_fieldwise_sum : forall l i, Forall wf l -> (i < nfields)%nat ->
+  nth i (alloc_all l) 0 = fold_left Z.add (map (fun c => nth i c 0) l) 0.
+Proof. exact alloc_all_field. Qed.
+Print Assumptions C15_history_fieldwise_sum.
+
+Theorem C15_history_order_independent : forall l l', Permutation l l' -> alloc_all l = alloc_all l'.
+Proof. exact alloc_all_perm. Qed.
+Print Assumptions C15_history_order_independent.
+
+Theorem C15_history_release_last : forall l x, Forall wf l -> wf x -> csub (alloc_all (l ++ [x])) x = alloc_all l.
+Proof. exact release_last. Qed.
+Print Assumptions C15_history_release_last.
+
+Theorem C15_free_plus_allocated_after_any_history : forall t l, wf t -> Forall wf l ->
+  cadd (cfree t (alloc_all l)) (alloc_all l) = t.
+Proof. exact free_after_history. Qed.
+Print Assumptions C15_free_plus_allocated_after_any_history.
+
+(* FreeCapacity printer: a field is shown exactly when free or total is non-zero; a negative free value is
+   always shown (representable and printable) *)
+Theorem C15_free_print_keeps_exactly : forall t a f fr tot,
+  In (f, (fr, tot)) (fkept t a) <-> In (f, (fr, tot)) (fnamed t a) /\ ~ (fr = 0 /\ tot = 0).
+Proof. exact fkept_exact. Qed.
+Print Assumptions C15_free_print_keeps_exactly.
+
+Theorem C15_negative_free_printed : forall t a f fr tot,
+  In (f, (fr, tot)) (fnamed t a) -> fr < 0 -> In (f, (fr, tot)) (fkept t a).
+Proof. exact negative_free_kept. Qed.
+Print Assumptions C15_negative_free_printed.
+
+Example C15_nonvacuous_ext :
+  let t := [4; 8; 64; 500; 100; 0; 1; 9000] in
+  let l := [[1; 2; 16; 10; 0; 0; 0; 0]; [2; 4; 64; 100; 50; 0; 1; 0]] in
+  wf t /\ Forall wf l /\ alloc_all l = [3; 6; 80; 110; 50; 0; 1; 0] /\
+  negative_fields (cfree t (alloc_all l)) = ["ram"%string] /\
+  free_get "ram" t (alloc_all l) = Some (-16) /\
+  positive_fields t ["cpu"; "ram"]%string = Some true /\ positive_fields t ["burst_size"; "nosuch"]%string = Some false /\
+  positive_fields t ["cpu"; "nosuch"]%string = None /\ fkept t (alloc_all l) <> [].
+Proof. vm_compute. repeat split; try discriminate; repeat constructor. Qed.
